@@ -529,6 +529,133 @@ fn run_e2e(pssm: &[Vec<u32>], seq: &str, f: &Fields) -> String {
     out.join(" ")
 }
 
+/// backgrounds of the `k=pad` cases (dyadic frequencies: the sum is exactly 1.0 in binary32)
+fn pad_background(k: u32) -> Background<Dna> {
+    match k {
+        1 => Background::new([0.5f32, 0.25, 0.125, 0.125, 0.0]).unwrap(),
+        // the wildcard has a frequency: `sample` draws N inside the sequence too
+        2 => Background::new([0.125f32, 0.125, 0.25, 0.25, 0.25]).unwrap(),
+        _ => Background::uniform(),
+    }
+}
+
+/// `k=pad`: the padding clause of C07 end to end, on a sequence built by
+///   src=sample  `StripedSequence::sample(StdRng::seed_from_u64(sd), pad_background(bg), L)`
+///   src=text    `EncodedSequence::encode(seq).to_striped()`
+///   src=new     `StripedSequence::new(DenseMatrix::from_rows(sm), L)` (hand-filled matrix: the cells of linear
+///               index >= L hold whatever `sm` says)
+/// then `configure(&pssm)`, scored by `Pipeline::generic()/sse2()/avx2().score` (pg / ps / pa) and by
+/// `ScoringMatrix::score` under each forced dispatcher arm (dG / dS / dA).  Observation: `sR` rows of the
+/// sequence matrix before configure, `q` the symbols read through Index at 0..L, `pd` the symbols of the
+/// cells of linear index L..sR*32, and per scoring X: `X.R X.mi X.c` (cells), `X.max X.am X.th` of the SAME
+/// pipeline (coordinates) resp. of StripedScores::{max,argmax,threshold} under the same forced arm (offsets,
+/// with `X.ix` = scores[argmax]).
+fn run_pad(f: &Fields) -> String {
+    use lightmotif::abc::Alphabet;
+    use lightmotif::abc::Nucleotide;
+    use lightmotif::abc::Symbol;
+    use rand::SeedableRng;
+    let pssm = parse_matrix(&f["pssm"]);
+    let l: usize = f["L"].parse().unwrap();
+    let t = f32::from_bits(f["t"].parse().unwrap());
+    let src = f["src"].clone();
+    let built = no_panic(|| {
+        let rows: Vec<Vec<f32>> = pssm.iter().map(|r| r.iter().map(|&b| f32::from_bits(b)).collect()).collect();
+        let data = DenseMatrix::<f32, <Dna as Alphabet>::K>::from_rows(rows);
+        let sm = ScoringMatrix::<Dna>::new(Background::uniform(), data);
+        let striped: StripedSequence<Dna, U32> = match src.as_str() {
+            "sample" => {
+                let sd: u64 = f["sd"].parse().unwrap();
+                let bg: u32 = f.get("bg").map(|x| x.parse().unwrap()).unwrap_or(0);
+                StripedSequence::sample(rand::rngs::StdRng::seed_from_u64(sd), pad_background(bg), l)
+            }
+            "text" => {
+                let s = if f["seq"] == "-" { "" } else { f["seq"].as_str() };
+                assert_eq!(s.len(), l);
+                EncodedSequence::<Dna>::encode(s).unwrap().to_striped::<U32>()
+            }
+            "new" => {
+                let sm_rows: Vec<Vec<Nucleotide>> = f["sm"]
+                    .split('/')
+                    .filter(|x| !x.is_empty() && *x != "-")
+                    .map(|r| r.bytes().map(|d| Dna::symbols()[(d - b'0') as usize]).collect())
+                    .collect();
+                StripedSequence::new(DenseMatrix::<Nucleotide, U32>::from_rows(sm_rows), l).unwrap()
+            }
+            s => panic!("unknown src {}", s),
+        };
+        (sm, striped)
+    });
+    let (sm, mut striped) = match built {
+        Some(x) => x,
+        None => return "sR=P".to_string(),
+    };
+    let r0 = striped.matrix().rows();
+    let q: String = (0..l).map(|i| striped[i].as_char()).collect();
+    let pd: String = (l..r0 * 32).map(|i| striped.matrix()[i % r0][i / r0].as_char()).collect();
+    let mut out: Vec<String> = vec![format!(
+        "sR={} sL={} q={} pd={}",
+        r0,
+        striped.len(),
+        if q.is_empty() { "-".to_string() } else { q },
+        if pd.is_empty() { "-".to_string() } else { pd }
+    )];
+    striped.configure(&sm);
+    fn cells_of(scores: &StripedScores<f32, U32>) -> Vec<Vec<u32>> {
+        (0..scores.matrix().rows())
+            .map(|r| (0..32).map(|c| scores.matrix()[r][c].to_bits()).collect())
+            .collect()
+    }
+    macro_rules! pipeline {
+        ($name:expr, $pli:expr) => {{
+            let p = $pli;
+            let r = no_panic(|| {
+                let scores: StripedScores<f32, U32> = p.score(&sm, &striped);
+                format!(
+                    "{n}.R={} {n}.mi={} {n}.c={} {n}.max={} {n}.am={} {n}.th={}",
+                    scores.matrix().rows(),
+                    scores.max_index(),
+                    show_matrix(&cells_of(&scores)),
+                    show_opt(no_panic(|| p.max(&scores).map(f32::to_bits))),
+                    show_mc(no_panic(|| p.argmax(&scores))),
+                    show_mcs(no_panic(|| p.threshold(&scores, t))),
+                    n = $name
+                )
+            });
+            out.push(r.unwrap_or_else(|| format!("{}.R=P", $name)));
+        }};
+    }
+    pipeline!("pg", Pipeline::<Dna, _>::generic());
+    pipeline!("ps", Pipeline::<Dna, _>::sse2().unwrap());
+    pipeline!("pa", Pipeline::<Dna, _>::avx2().unwrap());
+    for arm in ARMS.iter() {
+        force_backend(Some(arm.clone()));
+        let n = format!("d{}", arm_name(arm));
+        let r = no_panic(|| {
+            let scores: StripedScores<f32, U32> = sm.score(&striped);
+            let am = no_panic(|| scores.argmax());
+            let ix = match am {
+                Some(Some(off)) => format!(" {}.ix={}", n, show_opt(no_panic(|| Some(scores[off].to_bits())))),
+                _ => String::new(),
+            };
+            format!(
+                "{n}.R={} {n}.mi={} {n}.c={} {n}.max={} {n}.am={}{} {n}.th={}",
+                scores.matrix().rows(),
+                scores.max_index(),
+                show_matrix(&cells_of(&scores)),
+                show_opt(no_panic(|| scores.max().map(f32::to_bits))),
+                show_opt(am),
+                ix,
+                show_list(no_panic(|| scores.threshold(t))),
+                n = n
+            )
+        });
+        force_backend(None);
+        out.push(r.unwrap_or_else(|| format!("{}.R=P", n)));
+    }
+    out.join(" ")
+}
+
 // ---------------------------------------------------------------- generation
 
 const NINF: u32 = 0xFF80_0000;
@@ -984,9 +1111,105 @@ fn gen_e2e(rng: &mut Rng, id: usize, tier: &str) -> String {
     )
 }
 
+/// scoring matrix of a `k=pad` case: through the library's own conversions (counts -> frequencies ->
+/// log-odds with the uniform background: the wildcard column is -inf) or explicit cells with a -inf
+/// wildcard column (some other cells -inf too)
+fn gen_pad_pssm(rng: &mut Rng, mlen: usize) -> Vec<Vec<u32>> {
+    if rng.chance(1, 2) {
+        let pseudo = *rng.pick(&[0.0f32, 0.1, 0.25, 1.0]);
+        let total = 20u64;
+        let rows: Vec<Vec<u32>> = (0..mlen)
+            .map(|_| {
+                let a = rng.below(total + 1);
+                let b = rng.below(total - a + 1);
+                let c = rng.below(total - a - b + 1);
+                let d = total - a - b - c;
+                let mut r = vec![a as u32, b as u32, c as u32, d as u32];
+                let k = rng.below(4) as usize;
+                r.rotate_left(k);
+                r.push(0);
+                r
+            })
+            .collect();
+        let cm = CountMatrix::<Dna>::new(DenseMatrix::from_rows(rows)).unwrap();
+        let sm = cm.to_freq(pseudo).to_scoring(None);
+        (0..mlen).map(|j| (0..5).map(|k| sm.matrix()[j][k].to_bits()).collect()).collect()
+    } else {
+        (0..mlen)
+            .map(|_| {
+                let mut r: Vec<u32> = (0..4)
+                    .map(|_| if rng.chance(1, 9) { NINF } else { fbits((rng.range(-12_000, 3_000) as f32) / 1000.0) })
+                    .collect();
+                r.push(NINF);
+                r
+            })
+            .collect()
+    }
+}
+
+/// rows of a hand-filled sequence matrix (`src=new`): digits = symbol indices (A C T G N), rows joined by `/`
+fn show_symbol_rows(m: &[Vec<u8>]) -> String {
+    if m.is_empty() {
+        return "-".to_string();
+    }
+    m.iter()
+        .map(|r| r.iter().map(|&d| (b'0' + d) as char).collect::<String>())
+        .collect::<Vec<_>>()
+        .join("/")
+}
+
+/// `k=pad` (see `run_pad`): sampled / striped / hand-filled sequences, lengths around the block size
+fn gen_pad(rng: &mut Rng, id: usize, tier: &str) -> String {
+    let maxl = if tier == "thorough" { 700 } else { 200 };
+    let mmax = if rng.chance(1, 8) { 40 } else { 14 };
+    let mlen = 1 + rng.below(mmax) as usize;
+    let l = match rng.below(12) {
+        0 => rng.below(mlen as u64 + 1) as usize,
+        1 => mlen + rng.below(3) as usize,
+        2 | 3 => (32 * (1 + rng.below(5) as usize) + rng.below(3) as usize).saturating_sub(1),
+        4 | 5 => 32 * rng.below(4) as usize + 2 + rng.below(29) as usize,
+        _ => rng.below(maxl) as usize,
+    };
+    let pssm = gen_pad_pssm(rng, mlen);
+    let t = *rng.pick(&[fbits(0.0), fbits(-2.0), fbits(-5.0), fbits(-10.0), fbits(-25.0), fbits(3.0), NINF, PINF]);
+    let body = match rng.below(4) {
+        0 | 1 => format!("src=sample sd={} bg={} L={}", rng.next() % 1_000_000_007, rng.below(3), l),
+        2 => {
+            let wild_in_seq = rng.chance(1, 4);
+            let seq: String = (0..l)
+                .map(|_| if wild_in_seq && rng.chance(1, 10) { 'N' } else { *rng.pick(&['A', 'C', 'T', 'G']) })
+                .collect();
+            format!("src=text L={} seq={}", l, if seq.is_empty() { "-".to_string() } else { seq })
+        }
+        _ => {
+            // hand-filled matrix: now and then more rows than ceil(L / 32); padding cells: ordinary
+            // symbols (mostly), all wildcards (the clause's premise holds), or a mixture
+            let rows = (l + 31) / 32 + if rng.chance(1, 4) { 1 + rng.below(2) as usize } else { 0 };
+            let fam = rng.below(5);
+            let wild_in_seq = rng.chance(1, 4);
+            let mut m = vec![vec![0u8; 32]; rows];
+            for i in 0..rows * 32 {
+                let v = if i < l {
+                    if wild_in_seq && rng.chance(1, 10) { 4 } else { rng.below(4) as u8 }
+                } else {
+                    match fam {
+                        0 => 4,
+                        1 => if rng.chance(1, 2) { 4 } else { rng.below(4) as u8 },
+                        _ => rng.below(4) as u8,
+                    }
+                };
+                m[i % rows][i / rows] = v;
+            }
+            format!("src=new L={} sm={}", l, show_symbol_rows(&m))
+        }
+    };
+    format!("{} k=pad {} t={} pssm={}", id, body, t, show_matrix(&pssm))
+}
+
 fn gen_case(rng: &mut Rng, id: usize, tier: &str) -> String {
     // `sid` numbers the cases of one kind consecutively (systematic placement of maxima)
     match id % 10 {
+        3 if (id / 10) % 2 == 1 => gen_pad(rng, id, tier),
         0 | 1 | 2 | 3 => gen_f32(rng, id, id / 10 * 4 + id % 10, tier, 32),
         4 | 5 => gen_u8(rng, id, id / 10 * 2 + id % 10 - 4, tier, 32),
         6 => gen_u8(rng, id, id / 10, tier, [16, 48, 64][(id / 10) % 3]),
@@ -1190,6 +1413,46 @@ fn corpus() -> Vec<String> {
             &mut out,
         );
     }
+    // the padding clause on SAMPLED sequences (finding of round 3, repaired in /repo 740d563: `sample` left
+    // random symbols in the cells of linear index >= L): the probe (README motif through to_scoring(None),
+    // 40 symbols, StdRng seed 0: before the repair max_index 26, argmax 48, max -4.568783 in a padding cell)
+    // and its neighbours; the same lengths through to_striped; hand-filled matrices (StripedSequence::new)
+    // whose padding holds the motif itself (the maximum IS in the padding: only the first sentence of C07
+    // is promised there), all wildcards, and one spare row
+    {
+        let ctx = score_ctx();
+        let readme: Vec<Vec<u32>> = (0..ctx.pssm.matrix().rows())
+            .map(|j| (0..5).map(|k| ctx.pssm.matrix()[j][k].to_bits()).collect())
+            .collect();
+        let readme = show_matrix(&readme);
+        for &(l, sd, bg, t) in &[
+            (40usize, 0u64, 0u32, fbits(-5.0)),
+            (40, 0, 0, NINF),
+            (40, 1, 1, fbits(-10.0)),
+            (33, 0, 0, fbits(-25.0)),
+            (63, 2, 0, fbits(-5.0)),
+            (65, 3, 2, fbits(-10.0)),
+            (100, 4, 0, fbits(-25.0)),
+            (17, 5, 0, fbits(-25.0)),
+            (15, 6, 0, fbits(-25.0)),
+            (14, 7, 0, fbits(0.0)),
+            (64, 8, 1, fbits(-10.0)),
+        ] {
+            push(format!("k=pad src=sample sd={} bg={} L={} t={} pssm={}", sd, bg, l, t, readme), &mut out);
+        }
+        for &l in &[40usize, 33, 63, 64, 65] {
+            let seq: String = (0..l).map(|i| ['A', 'C', 'T', 'G'][(i * 7 + i / 3) % 4]).collect();
+            push(format!("k=pad src=text L={} seq={} t={} pssm={}", l, seq, fbits(-10.0), readme), &mut out);
+        }
+        let motif: Vec<u8> = "GTTGACCTTATCAAC".bytes().map(|b| match b { b'A' => 0, b'C' => 1, b'T' => 2, _ => 3 }).collect();
+        for &(l, rows, fill) in &[(40usize, 2usize, 0u8), (40, 2, 1), (40, 3, 0), (20, 1, 0), (64, 3, 0), (10, 1, 0)] {
+            let mut m = vec![vec![4u8; 32]; rows];
+            for i in 0..rows * 32 {
+                m[i % rows][i / rows] = if i < l { ((i * 7 + i / 3) % 4) as u8 } else if fill == 1 { 4 } else { motif[(i - l) % 15] };
+            }
+            push(format!("k=pad src=new L={} sm={} t={} pssm={}", l, show_symbol_rows(&m), fbits(-10.0), readme), &mut out);
+        }
+    }
     // the Scanner pattern: 11 rows scored as 0..8 then 8..11 into one buffer (f32 and 8-bit), one-row
     // blocks, an empty range in between
     {
@@ -1227,6 +1490,7 @@ fn main() {
                 let (_id, f) = fields(&line);
                 let obs = match f["k"].as_str() {
                     "e2e" => run_e2e(&parse_matrix(&f["pssm"]), if f["seq"] == "-" { "" } else { &f["seq"] }, &f),
+                    "pad" => run_pad(&f),
                     k => {
                         let cols = match k {
                             "f16" | "b16" => 16,
